@@ -89,9 +89,41 @@ WITNESSES = [
      "input": "let x = 1 \u00e9\n",
      "expect": {"stdout_contains": "\"column\":10,\"end_column\":12"},
      "note": "the error span of a 2-byte character covers both bytes"},
+    {"match": r"lex_between\.(site\[|loop#1\.inv|post\[)", "kind": "session-positions", "props": ["C23"], "input": None, "expect": {},
+     "note": "every position reported for the listed inputs agrees with its offsets"},
     {"match": r"lex_between\.loop#1\.decreases", "kind": "check", "props": ["C01"], "timeout": 10,
      "input": "let x = 1 // c\n\"abc\n", "expect": {}},
 ]
+
+# C23 bounded stand-in: runtime errors raised at chosen tokens; every reported Position is validated against
+# the source bytes (vc/replay.py kind session-positions)
+POSITION_CORPUS = [
+    'nosuch_a(1)\n',
+    '"a\nb" nosuch_b(1)\n',
+    '"a\n\nb" + nosuch_c\n',
+    'let s = "x\ny"  nosuch_d()\n',
+    '"\u00e9\nq" nosuch_e()\n',
+    '// comment \u00e9\nnosuch_f()\n',
+    '// c1\n// c2\n"m\nn" /* */ nosuch_g()\n'.replace(' /* */', ''),
+    '"\U0001F600" nosuch_h()\n',
+    '\u00a0 nosuch_i()\n',
+    '"one" "two\nthree" "four\nfive" nosuch_j()\n',
+    'let t = (1, "p\nq")  nosuch_k()\n',
+    '[1, 2,\n 3].nosuch_method()\n',
+    '1 + "s\nt" + nosuch_l\n',
+    'assert("u\nv" == nosuch_m)\n',
+    '"a\nb" // trailing \u00e9\nnosuch_n()\n',
+    '\n\n   "w\n\tx"\t\tnosuch_o()',
+]
+BOUNDED = [
+    {"name": "position_corpus", "kind": "session-positions", "props": ["C23"], "input": POSITION_CORPUS, "n_inputs": len(POSITION_CORPUS),
+     "bound": "%d listed inputs (a failing expression after multi-line strings, comments, multi-byte characters, tabs, blank lines, on the string's last line): every reported position must agree with its offsets" % len(POSITION_CORPUS),
+     "expect": {}},
+]
+
+for _w in WITNESSES:
+    if _w.get("kind") == "session-positions":
+        _w["input"] = POSITION_CORPUS
 
 LEMMAS = {}
 UNVERIFIED = {
